@@ -297,6 +297,11 @@ def _run_units(case, ctx, cl):
                         c = _keep(a.as_unit(u2))
                         if fx(float(c.si)) != fx(float(a.si)) or c.unit != u2 or type(c) is not cls:
                             ctx.viol("as_unit", {**info, "unit2": u2, "got": [fx(float(c.si)), c.unit], "want": [fx(float(a.si)), u2]})
+                        # the re-expressed quantity is rendered in ITS unit and value (the source was rendered before)
+                        disp2 = cls._displayunits.get(u2, u2)
+                        txt = str(c)
+                        if isinstance(disp2, str) and (not txt.endswith(disp2) or not txt.startswith(str(c.displayvalue))):
+                            ctx.viol("as_unit:text", {**info, "unit2": u2, "text": txt, "expected": f"{c.displayvalue} {disp2}", "source_text": str(a)})
                     except Exception as e:
                         ctx.viol(f"as_unit:raises:{type(e).__name__}", {**info, "unit2": u2, "exc": repr(e)})
     try:
